@@ -484,6 +484,71 @@ def phase_after_circuits():
     return out
 
 
+def retarget_items(rng, i, g, N):
+    """script items that move gate number i (harness gate g) to another placement of the same shape on N qubits"""
+    k = len(g.qubits())
+    cur = g.qubits()
+    for _ in range(8):
+        qs = rng.sample(range(N), k)
+        if qs != cur:
+            break
+    if g.cn:
+        return [["t", i, qs]]
+    nc = len(g.c)
+    return [["c", i, qs[:nc]], ["t", i, qs[nc:]]]
+
+
+def random_script(rng, gates, N):
+    """[e] (sometimes omitted: the objects are placed before the first evaluation), then 1-3 rounds of (move 1-2 gates, e)"""
+    script = [["e"]] if rng.random() < 0.7 else []
+    cur = [G.from_js(g.js()) for g in gates]
+    movable = [i for i, g in enumerate(gates) if g.name != "GLOBALPHASE" and g.qubits()]
+    for _ in range(rng.randint(1, 3)):
+        for i in rng.sample(movable, min(len(movable), rng.randint(1, 2))) if movable else []:
+            items = retarget_items(rng, i, cur[i], N)
+            for it in items:
+                if it[0] == "t":
+                    cur[i].t = list(it[2])
+                else:
+                    cur[i].c = list(it[2])
+            script += items
+        script.append(["e"])
+    return script
+
+
+def enc_script(script):
+    d = lambda l: ".".join(map(str, l)) if l else "-"
+    return ";".join("e" if it[0] == "e" else f"{it[0]}{it[1]}:{d(it[2])}" for it in script)
+
+
+def retarget_witnesses():
+    """systematic re-targeting histories for the oracle: every gate class on its minimal register + 1, moved once, placed
+    after construction and after a first evaluation; incl. float-only classes (RZX, MS, SWAPALPHA, R, QASMU)"""
+    import random
+    rng = random.Random(7)
+    ws = []
+    names = [n for n in SHAPE if n != "GLOBALPHASE"]
+    for name in names:
+        nc, nt = SHAPE[name]
+        k = nc + nt
+        N = k + 1
+        if name in ROT or name in ("SWAPalpha", "RZX"):
+            val = 0.7
+        elif name in ("R", "MS"):
+            val = (0.7, -0.4)
+        elif name == "QASMU":
+            val = (0.7, -0.4, 1.1)
+        else:
+            val = None
+        base = G(name, list(range(nc, k)), list(range(nc)), val=val) if val is not None else G(name, list(range(nc, k)), list(range(nc)))
+        forms = [base] + [f for f in [base.as_object(rng)] if f is not None]
+        for g in forms:
+            mv = retarget_items(rng, 0, g, N)
+            for script in (mv + [["e"]], [["e"]] + mv + [["e"]]):
+                ws.append({"kind": "retarget", "N": N, "gates": [g.js()], "ug": [], "mode": "normal", "script": script})
+    return ws
+
+
 def exact_angle(rng):
     """p8 (angle = p8*pi/8, even): inside (-2pi, 2pi), beyond it up to +-6pi, and the boundaries 0, +-pi, +-2pi, +-4pi"""
     r = rng.random()
@@ -674,6 +739,8 @@ class C01(PropertyCheck):
         "QipVerif.C01.trajectory_prefix",
         "QipVerif.C01.trajectory_eq_den",
         "QipVerif.C01.trajectory_oper_eq_den",
+        "QipVerif.C01.run_reads_current_fields",
+        "QipVerif.C01.retargeted_run_eq_den",
     ]
     technique = ("Lean 4 proof (list combinatorics of the einsum index lists; contraction = embedded operator via the split "
                  "equivalence; induction over the gate list; invariant of the block list of the compact product; decision logic "
@@ -695,7 +762,10 @@ class C01(PropertyCheck):
                   "ignore_measurement drop exactly the measurements, without it a measurement is refused. Stepping: the state "
                   "recorded after step k is the product of the first k gates applied to the input whatever steps follow "
                   "(trajectory_prefix / trajectory_eq_den); on the code every object returned by sim.state is kept and the "
-                  "trajectory is compared after the last step (no-aliasing contract, cf. C16 no_alias). An unsorted set order "
+                  "trajectory is compared after the last step (no-aliasing contract, cf. C16 no_alias). Gate objects have mutable "
+                  "targets / controls: after any history of re-assignments every evaluation is that of fresh objects with the "
+                  "current fields (run_reads_current_fields, retargeted_run_eq_den; checked on one live circuit object along "
+                  "re-targeting histories). An unsorted set order "
                   "breaks the compact product (counter-example proved in the kernel; repaired in /repo by cbd9b48). The model is "
                   "tied to the code by an exact correspondence (amplitudes in Z[zeta16][1/2]) over every placed library gate on 1-3 "
                   "qubits (angles incl. 2pi and -5pi/2; added by name and as objects of every exported gate class), pairs of placed "
@@ -1208,19 +1278,24 @@ class C01(PropertyCheck):
         ctx.log(f"  big done at {time.time() - t0:.1f}s")
         # 6. circuits with measurements: propagators(expand, ignore_measurement)
         self._measurement_stream(ctx, res)
+        # 6b. re-targeting histories on live gate objects
+        self._retarget_stream(ctx, res)
+        ctx.log(f"  retarget done at {time.time() - t0:.1f}s")
         # 7. malformed stream
         self._malformed(ctx, res)
         ctx.log(f"correspondence took {time.time() - t0:.1f}s")
 
     # --------------------------------------------------------------------------------------------
     # the property itself on the real code
-    def _oracle_circuit(self, N, gates, ugs, rng):
+    def _oracle_circuit(self, N, gates, ugs, rng, qc=None):
+        """`qc`: a live circuit object whose gate objects currently carry the fields of `gates` (re-targeting histories)"""
         import qutip
         from qutip_qip.circuit import CircuitSimulator
         from qutip_qip.operations import gate_sequence_product
         utab = {u.name: u for u in ugs}
         try:
-            qc = build_circuit(N, gates, ugs)
+            if qc is None:
+                qc = build_circuit(N, gates, ugs)
             D = dense_product(N, gates, utab)
         except Exception as e:
             return True, "building the circuit / its dense product raised " + repr(e)
@@ -1367,6 +1442,96 @@ class C01(PropertyCheck):
             return True, f"compact product deviates from the ordered product by {d:.3g} (columns {cols})"
         return False, "compact product equals the ordered product on the sampled columns"
 
+    def _oracle_retarget(self, N, gates, ugs, script, rng):
+        """the property along a history on LIVE gate objects: `targets` / `controls` are plain public attributes; after
+        every re-assignment each evaluation route must equal the ordered product on the qubits the gates name NOW"""
+        try:
+            qc = build_circuit(N, gates, ugs)
+        except Exception as e:
+            return True, "building the circuit raised " + repr(e)
+        cur = [G.from_js(g.js()) for g in gates]
+        moved = 0
+        for item in script:
+            if item[0] == "e":
+                fails, detail = self._oracle_circuit(N, cur, ugs, rng, qc=qc)
+                if fails:
+                    return True, f"after {moved} re-assignment(s) of targets/controls on the live gate objects: {detail}"
+            else:
+                _, i, v = item
+                try:
+                    if item[0] == "t":
+                        qc.gates[i].targets = list(v)
+                        cur[i].t = list(v)
+                    else:
+                        qc.gates[i].controls = list(v)
+                        cur[i].c = list(v)
+                except Exception as e:
+                    return True, "assigning targets/controls raised " + repr(e)
+                moved += 1
+        return False, "every evaluation follows the qubits the gates name at that moment"
+
+    def _retarget_stream(self, ctx, res):
+        """re-targeting histories: model `histket` (Model/SimKet.lean (h)) against qc.run(ket) on one live circuit object,
+        + the oracle on all evaluation routes after every re-assignment"""
+        import qutip
+        rng = ctx.rng
+        cases = []
+        # every placed exact gate (by name and per class) on 3 qubits, moved once: placed after construction / after a run
+        for g in placed_gates(3, rot_angles=False, objects=True):
+            if g.name == "GLOBALPHASE":
+                continue
+            mv = retarget_items(rng, 0, g, 3)
+            cases.append((3, [g], UTable(), mv + [["e"]], ["retarget", "single", "placed-after-construction"]))
+            cases.append((3, [g], UTable(), [["e"]] + mv + [["e"]], ["retarget", "single", "moved-after-run"]))
+        for i in range(160 if ctx.thorough else 40):
+            N = rng.choice([2, 3, 3, 4])
+            ugs = random_user_table(rng) if rng.random() < 0.3 else UTable()
+            gates = random_gate_list(rng, N, rng.randint(1, 5), ugs)
+            if not gates:
+                continue
+            cases.append((N, gates, ugs, random_script(rng, gates, N), ["retarget", "random", f"N={N}"]))
+        lines, kets = [], []
+        for (N, gates, ugs, script, tags) in cases:
+            ket = random_state(rng, 2 ** N)
+            kets.append(ket)
+            lines.append(f"histket N={N} ug={enc_ug(ugs)} ops={enc_ops(gates)} state={enc_vec(ket)} script={enc_script(script)}")
+        outs = ctx.driver("drv_ket").run(lines)
+        for k, ((N, gates, ugs, script, tags), ket, o) in enumerate(zip(cases, kets, outs)):
+            inp = {"N": N, "gates": [g.js() for g in gates], "ug": [[u.name, u.kind, u.m] for u in ugs], "script": script,
+                   "path": "retarget-history"}
+            witness = {"kind": "retarget", "N": N, "gates": [g.js() for g in gates], "ug": [u.js() for u in ugs],
+                       "mode": table_mode(ugs), "script": script}
+            res.case(inp, True, tags + [f"evals={sum(1 for it in script if it[0] == 'e')}"])
+            if not o.startswith("ok "):
+                res.disagree(inp, o, "ok", "model refused the history", witness)
+                continue
+            manswers = o[3:].split("#")
+            st, qc = guarded(lambda: build_circuit(N, gates, ugs))
+            if st != "ok":
+                res.disagree(inp, "circuit", st, "circuit construction failed", witness)
+                continue
+            qket = qutip.Qobj(val_vec(ket).reshape(-1, 1), dims=[[2] * N, [1] * N])
+            ianswers = []
+            for item in script:
+                if item[0] == "e":
+                    ianswers.append(guarded(lambda: qc.run(qket).full().ravel()))
+                elif item[0] == "t":
+                    qc.gates[item[1]].targets = list(item[2])
+                else:
+                    qc.gates[item[1]].controls = list(item[2])
+            bad = len(manswers) != len(ianswers)
+            for ma, (ist, iv) in zip(manswers, ianswers):
+                ms, mv = self._decode("ket", ma)
+                if ms != ist or (ms == "ok" and not self._same("ket", mv, iv)):
+                    bad = True
+            if bad:
+                res.disagree(inp, "value", "value", "run(ket) along a re-targeting history on live gate objects", witness)
+            if k % 3 == 0 or bad:
+                fails, detail = self._oracle_retarget(N, gates, ugs, script, rng)
+                if fails:
+                    res.disagree(dict(inp, path="oracle"), "dense product", detail,
+                                 "an evaluation does not follow the gates' current targets/controls", witness)
+
     def oracle_replay(self, ctx, w):
         gates = [G.from_js(j) for j in w["gates"]]
         if w["kind"] == "compact":
@@ -1374,6 +1539,8 @@ class C01(PropertyCheck):
         ugs = UTable([UG(*u) for u in w.get("ug", [])], mode=w.get("mode", "normal"))
         if w["kind"] == "meas":
             return self._oracle_meas(w["N"], gates, ugs, w["meas"])
+        if w["kind"] == "retarget":
+            return self._oracle_retarget(w["N"], gates, ugs, w["script"], ctx.rng)
         return self._oracle_circuit(w["N"], gates, ugs, ctx.rng)
 
     def _random_witness(self, rng):
@@ -1412,6 +1579,7 @@ class C01(PropertyCheck):
                        if N <= 2]
         systematic += [{"kind": "circuit", "N": N, "gates": [g.js() for g in gs], "ug": [u.js() for u in ugs], "mode": ugs.mode}
                        for N, gs, ugs in shadow_circuits()]
+        systematic += retarget_witnesses()
         systematic += self._controlled_witnesses()
         systematic += angle_sweep()
         systematic += [{"kind": "circuit", "N": 3, "gates": [g.js()], "ug": []} for g in placed_gates(3, objects=True)]
@@ -1436,6 +1604,14 @@ class C01(PropertyCheck):
         sc = shadow_circuits()
         for N_, gs, ugs in (sc[1], sc[4], sc[5], sc[6 * 9 + 4], sc[6 * 12 + 2]):
             ws.append({"kind": "circuit", "N": N_, "gates": [g.js() for g in gs], "ug": [u.js() for u in ugs], "mode": ugs.mode})
+        # re-targeted live gate objects: RZX / SWAP objects placed after construction, RY / CNOT / TOFFOLI moved after a run
+        ws.append({"kind": "retarget", "N": 3, "ug": [], "mode": "normal",
+                   "gates": [G("SNOT", [0], []).js(), G("RZX", [0, 1], [], val=0.7, via="RZX").js(), G("SWAP", [0, 1], [], via="SWAP").js()],
+                   "script": [["t", 1, [2, 0]], ["t", 2, [1, 2]], ["e"]]})
+        ws.append({"kind": "retarget", "N": 3, "ug": [], "mode": "normal",
+                   "gates": [G("RX", [0], [], val=0.4).js(), G("CNOT", [1], [0]).js(), G("RY", [1], [], val=1.1).js(),
+                             G("TOFFOLI", [2], [0, 1]).js()],
+                   "script": [["e"], ["t", 2, [2]], ["e"], ["c", 1, [2]], ["t", 1, [0]], ["e"], ["c", 3, [2, 0]], ["t", 3, [1]], ["e"]]})
         # a phase step after a gate, consecutive phase steps: the kept trajectory must not change
         Pg = lambda p8: G("GLOBALPHASE", [], [], p8=p8).js()
         ws.append({"kind": "circuit", "N": 1, "ug": [], "gates": [G("X", [0], []).js(), Pg(4), Pg(3)]})
